@@ -27,6 +27,13 @@ def main():
                 n_formulas += 1
                 bm = vsat.brute_models(f, nv)
                 for phase in (False, True):
+                    if vsat._C is not None:
+                        for order in (None, list(range(nv, 0, -1))):
+                            mc = vsat.solve(f, nv, phase=phase, order=order)
+                            mp = vsat.solve_py(f, nv, phase=phase, order=order)
+                            if mc != mp:
+                                print('vsat self-test FAILED (C and Python builds differ)', f, mc, mp)
+                                return 1
                     m = vsat.solve(f, nv, phase=phase)
                     if (m is None) != (not bm):
                         print('vsat self-test FAILED (sat/unsat)', f)
@@ -93,7 +100,7 @@ def main():
         if not ok:
             print('refmodel self-test FAILED')
             return 1
-    print(f'selftest ok: vsat on {n_formulas} formulas, cut shim, refmodel')
+    print(f'selftest ok: vsat ({"C+Python" if vsat._C is not None else "Python only"}) on {n_formulas} formulas, cut shim, refmodel')
     return 0
 
 
